@@ -20,5 +20,6 @@ def check(ctx):
     collector.rule_scratch_emptied(ctx, c, "R1")
     collector.rule_map_ops(ctx, c, "R2")
     collector.rule_drain_keeps_live(ctx, c, "R3")
+    collector.rule_registry_in_place(ctx, c, "R3")
     spsc.rule_try_recv(ctx, facts, "R3")
     collector.rule_insert_tolerates_late_start(ctx, c, "R4")
